@@ -20,6 +20,7 @@ import (
 	"strings"
 	"sync"
 	"time"
+	"unicode"
 
 	aapp "golang.org/x/perf/analysis/app"
 	"golang.org/x/perf/internal/verifh/hx"
@@ -71,7 +72,55 @@ func (c *histCase) encode(id string) string {
 	if len(c.tags) > 0 {
 		tags = strings.Join(c.tags, "+")
 	}
-	return fmt.Sprintf("case %s kind=hist ups=%s qs=%s ls=%s tag=%s", id, strings.Join(us, ";"), hx.HexListS(c.qs), lss, tags)
+	return fmt.Sprintf("case %s kind=hist ups=%s qs=%s ls=%s uni=%s tag=%s", id, strings.Join(us, ";"), hx.HexListS(c.qs), lss, c.uniTable(), tags)
+}
+
+// uniTable lists the toolchain's classification of every non-ASCII rune of the case
+// (1 = unicode.IsSpace, 2 = IsUpper, 4 = IsLower); the model takes it as a parameter.
+func (c *histCase) uniTable() string {
+	seen := map[rune]int{}
+	add := func(s string) {
+		for _, r := range s {
+			if r < 0x80 {
+				continue
+			}
+			f := 0
+			if unicode.IsSpace(r) {
+				f |= 1
+			}
+			if unicode.IsUpper(r) {
+				f |= 2
+			}
+			if unicode.IsLower(r) {
+				f |= 4
+			}
+			seen[r] = f
+		}
+	}
+	for _, u := range c.ups {
+		for _, f := range u.files {
+			add(f.content)
+		}
+	}
+	for _, q := range c.qs {
+		add(q)
+	}
+	for _, l := range c.ls {
+		add(l.q)
+	}
+	var rs []int
+	for r := range seen {
+		rs = append(rs, int(r))
+	}
+	sort.Ints(rs)
+	var parts []string
+	for _, r := range rs {
+		parts = append(parts, fmt.Sprintf("%x:%d", r, seen[rune(r)]))
+	}
+	if len(parts) == 0 {
+		return "-"
+	}
+	return strings.Join(parts, ",")
 }
 
 func decodeHist(line string) *histCase {
@@ -411,11 +460,19 @@ type gen struct {
 	// does not preserve (leading blank from the server, CR CR LF line ends), 2 = empty name-derived
 	// label values
 	findings int
+	// unicode mixes non-ASCII letters and spaces into keys, names and query keys
+	unicode bool
 }
+
+var uniKeys = []string{"\u00e9", "\u043a\u043b\u044e\u0447", "k\u00c9", "k\u00a0x", "\u00c9x", "k\u2028", "\u00e9\u00e8k", "k\xff", "\xffk", "k\u00df"}
+var uniNames = []string{"Foo\u00a0bar", "Foo\u0085x", "\u00c9t\u00e9", "F\u3000", "Foo\xff", "Q\u00a0z"}
 
 func (g *gen) name() string {
 	r := g.r
 	n := hx.Pick(r, bases)
+	if g.unicode && r.Chance(1, 2) {
+		n = hx.Pick(r, uniNames)
+	}
 	for k := r.Intn(3); k > 0; k-- {
 		n += hx.Pick(r, subs)
 	}
@@ -475,6 +532,10 @@ func (g *gen) file(tags map[string]bool) string {
 				k = hx.Pick(r, riskyKeys)
 				tags["risky"] = true
 			}
+			if g.unicode && r.Chance(1, 2) {
+				k = hx.Pick(r, uniKeys)
+				tags["unikey"] = true
+			}
 			sep := hx.Pick(r, []string{": ", ": ", ":\t", ":   "})
 			e := eol
 			if g.findings == 1 && r.Chance(1, 8) {
@@ -488,7 +549,7 @@ func (g *gen) file(tags map[string]bool) string {
 		case x < 8:
 			b.WriteString(eol)
 		case x < 9:
-			b.WriteString(hx.Pick(r, []string{"PASS", "ok  \tpkg\t1.2s", "k:v", "K: v", "k v: w", "BenchmarkNoSpace", "benchmarkfoo 1 2 ns/op", ":x", "k2:: y", "  k: v"}) + eol)
+			b.WriteString(hx.Pick(r, []string{"PASS", "ok  \tpkg\t1.2s", "k:v", "K: v", "k v: w", "BenchmarkNoSpace", "benchmarkfoo 1 2 ns/op", ":x", "k2:: y", "  k: v", "kA: v", "k\tx: v"}) + eol)
 		default:
 			bench()
 		}
@@ -531,6 +592,10 @@ func quoteWord(r *hx.Rand, w string) string {
 func (g *gen) query(c *histCase, ids []string, tags map[string]bool) string {
 	r := g.r
 	keys := []string{"k", "pkg", "commit", "goos", "a", "z", "name", "gomaxprocs", "sub1", "sub2", "b", "upload", "upload-part", "upload-file", "by", "absent", "k"}
+	if g.unicode {
+		keys = append(keys, uniKeys...)
+		keys = append(keys, uniKeys...)
+	}
 	valFor := func(k string) string {
 		switch k {
 		case "upload":
@@ -636,6 +701,12 @@ func (g *gen) hist(mode int) *histCase {
 		seq++
 		ids = append(ids, fmt.Sprintf("%s.%d", day, seq))
 		u := uploadIn{day: day, user: hx.Pick(r, users)}
+		if i > 0 && day != c.ups[0].day && r.Chance(1, 12) {
+			// the clock jumps back to the first day: the id <day>.1 exists, NewUpload must fail
+			u.day = c.ups[0].day
+			seq--
+			tags["clockback"] = true
+		}
 		if g.findings == 1 && r.Chance(1, 4) {
 			u.user = " sp"
 		}
@@ -794,6 +865,7 @@ func main() {
 			mode = 2
 		}
 		g.findings = 0
+		g.unicode = i%6 == 2
 		if os.Getenv("VERIF_C19_FINDINGS") != "0" && i%8 == 5 {
 			g.findings = 1 + (i/8)%2
 		}
